@@ -238,5 +238,44 @@ fn verif_sort_witness_exhaustive()
             }
         }
     }
+    /*  LARGER graphs, drawn at random (seeded, reproducible): 5..14 rules with 1..3 targets each, edges mostly forward (so that many are
+        acyclic) with a few back edges, shared leaves, every goal incl. none and a missing one; three input orders each */
+    {
+        let mut x : u64 = 0x2545F4914F6CDD1D;
+        let mut next = move |n: u64| -> u64 { x ^= x << 13; x ^= x >> 7; x ^= x << 17; x % n };
+        let graphs : u64 = std::env::var("VERIF_SORT_RANDOM").ok().and_then(|s| s.parse().ok()).unwrap_or(1500);
+        for _ in 0..graphs
+        {
+            let n = 5 + next(10) as usize;
+            let mut targs : Vec<Vec<String>> = vec![]; let mut k = 0usize;
+            for _ in 0..n { let m = 1 + (next(6) / 4) as usize + (next(8) / 7) as usize; targs.push((0..m).map(|_| { k += 1; format!("n{}", k) }).collect()); }
+            let mut deps : Vec<Vec<String>> = vec![];
+            for i in 0..n
+            {
+                let mut d : Vec<String> = vec![];
+                let cnt = next(4) as usize;
+                for _ in 0..cnt
+                {
+                    /*  a source made by a later rule, mostly; one in twelve points backwards */
+                    let j = if i + 1 < n && next(12) != 0 { i + 1 + next((n - i - 1) as u64) as usize } else { next(n as u64) as usize };
+                    let t = targs[j][next(targs[j].len() as u64) as usize].clone();
+                    if !d.contains(&t) { d.push(t); }
+                }
+                deps.push(d);
+            }
+            let leaves : Vec<Vec<String>> = (0..n).map(|i| if i % 3 == 0 { vec!["shared".to_string()] } else { vec![format!("leaf{}", i)] }).collect();
+            let mut goals : Vec<Option<String>> = vec![None, Some("nosuch".to_string())];
+            for _ in 0..3 { let j = next(n as u64) as usize; goals.push(Some(targs[j][next(targs[j].len() as u64) as usize].clone())); }
+            for goal in goals
+            {
+                cases += 1;
+                for c in run_case(&targs, &deps, &leaves, &goal, false, &mut calls)
+                {
+                    bad += 1;
+                    if bad <= 40 { println!("WITNESS {} :: {}", describe(&targs, &deps, &goal), c); }
+                }
+            }
+        }
+    }
     println!("SUMMARY max_rules={} cases={} sorter_calls={} disagreements={} kinds={:?}", max_rules, cases, calls, bad, kinds);
 }
